@@ -358,7 +358,41 @@ def one_world(chk, drv, HG, g, stream, corr_fail, n_inst, only_last=False):
                     if a[0] == "ok" and b[0] == "ok" and (H.set_repr_hazard(a[1]) or H.set_repr_hazard(b[1])):
                         chk.unmodelled += 1
                         continue
+                    if a[0] == "ok" and b[0] == "ok" and _set_order_hazard(ru[-1], a[1], b[1]):
+                        # a set of the payload was iterated into an ordered container (a key renamed onto another key's
+                        # name, F24 region): the element order is CPython's set iteration order, which is not modelled
+                        chk.unmodelled += 1
+                        chk.note("unmodelled:set-iteration-order")
+                        continue
                     corr_fail.append((dict(case, op="HOOKST"), a, b))
+
+
+def _set_order_hazard(payload, a_txt, b_txt) -> bool:
+    """impl and model differ only in the ORDER of elements of ordered containers, and the payload holds a set with at
+    least two elements (whose iteration order is the only source of such a difference)"""
+    parse_sx = terms.parse_sx
+
+    def has_big_set(o):
+        if isinstance(o, (set, frozenset)):
+            return len(o) >= 2 or any(has_big_set(e) for e in o)
+        if isinstance(o, dict):
+            return any(has_big_set(k) or has_big_set(v) for k, v in o.items())
+        if isinstance(o, (list, tuple)):
+            return any(has_big_set(e) for e in o)
+        return False
+
+    def norm(p):
+        if isinstance(p, list):
+            items = [norm(x) for x in p]
+            if items and items[0] in ("l", "t", "q"):
+                return [items[0]] + sorted(items[1:], key=repr)
+            return items
+        return p
+
+    try:
+        return has_big_set(payload) and norm(parse_sx(a_txt)) == norm(parse_sx(b_txt))
+    except Exception:  # noqa: BLE001
+        return False
 
 
 def missing_required(chk, S, g, ci, ty, x, stream, corr_fail):
